@@ -58,12 +58,30 @@ FxClause(c, r, cert) ==
        IN okpad /\ (IF IsAbsent(o) THEN glo > 2 ELSE (o[2] + 2 < glo \/ o[1] - 2 > ghi))
   THEN "GradientIsTheTrueDerivative" ELSE "ok"
 
+\* Log semiring on a certified grid grammar with SCALAR start symbol: d log Z / d log w = w (dZ/dw) / Z.
+\* Observed g (interval in grid units, i.e. 1024 g) against the enclosure of dZ/dw:
+\*     1024 g * Z1024  in  [ w1024 * lo1024 - slack , w1024 * (lo1024 + pad) + slack ]      (all scaled by 1024^2)
+FxLogClause(c, r, cert) ==
+  LET Z == cert[S(c)][<<>>] IN
+  IF ShapeOf(c.ag, S(c)) # <<>> \/ Z = 0 THEN "ok"
+  ELSE IF \E e \in { e \in EntriesFx(c) : c.ag.wfx[e[1]][e[2]] # 0 } :
+       LET lo == DLower(c.ag, cert, e[1], e[2], 40)
+           okpad == DUpperOK(c.ag, cert, e[1], e[2], lo, c.pad)
+           w == c.ag.wfx[e[1]][e[2]]
+           a == w * lo[S(c)][<<>>]
+           b == w * (lo[S(c)][<<>>] + c.pad)
+           o == r.grads[e[1]][e[2]]
+           slack == 3 * Z + 3 * w
+       IN okpad /\ (IF IsAbsent(o) THEN a > slack ELSE (o[2] * Z + slack < a \/ o[1] * Z - slack > b))
+  THEN "LogGradientIsTheDerivativeOfLogZ" ELSE "ok"
+
 Verdict(c) ==
   LET cert == IF c.mode = "fx" THEN CertFun(c.ag) ELSE <<>>
       certified == c.mode = "fx" /\ CertExact(c.ag, cert) /\ CertQ(c.ag, cert) < FXS
       clause(r) == IF r.out # "ok" THEN "Raised"
                    ELSE IF c.mode = "nat" THEN (IF r.kind = "real" THEN RealClause(c, r) ELSE LogClause(c, r))
-                   ELSE IF ~certified THEN "ok" ELSE FxClause(c, r, cert)
+                   ELSE IF ~certified THEN "ok"
+                   ELSE IF r.kind = "log" THEN FxLogClause(c, r, cert) ELSE FxClause(c, r, cert)
       bad == SelectSeq(c.runs, LAMBDA r: clause(r) # "ok")
   IN [v |-> IF bad = <<>> THEN "ok" ELSE clause(bad[1]), tags |-> IF bad = <<>> THEN <<>> ELSE bad[1].tag, certified |-> certified]
 Judge == LET c == Cases[tid] r == Verdict(c) IN PrintT(ToJson([gtid |-> c.gtid, v |-> r.v, tags |-> r.tags, certified |-> r.certified]))
